@@ -121,6 +121,27 @@ def k2(ctx):
         rec = {'inline': inline, 'value': value, 'open': _open_recipe(opens[-1]) if opens else None, 'path': p,
                'dumps': [e for e in p.trace if e.kind == 'EXT' and e.d['name'] in ('pickle.dumps', 'pickle.dump')]}
         W.setdefault((m, inline), []).append(rec)
+    # the name recorded in the row is the relative name of the pair Disk.filename returned, the file is opened under
+    # the full path of the same pair (a swapped pair stores absolute paths: the cache breaks when it is opened through
+    # a relative or moved directory)
+    okn, nn = True, 0
+    for p in sp:
+        size, mode, filename, value = p.outcome[1].a[0]
+        if filename.is_const and filename.val is None:
+            continue
+        nn += 1
+        opens = _open_events(p.trace)
+        oa = opens[-1].d['args'][0] if opens and opens[-1].d['args'] else None
+        good = filename.k == 'field' and filename.a[1] == 0 and filename.a[0].k == 'ret' and \
+            any(q.endswith('.filename') for q in filename.a[0].a[1])
+        if good and oa is not None and not (oa.k == 'field' and oa.a[0] == filename.a[0] and oa.a[1] == 1):
+            good = False
+        if not good and filename.k in ('field', 'ret', 'ext', 'str'):
+            okn = False
+    obs.append(Ob('K2', 'store/records-relative-name', okn and nn > 0,
+                  'Disk.store does not return the relative name (first element of Disk.filename()) while writing to the '
+                  'full path (second element): rows would record absolute paths, which break when the directory is '
+                  'given relatively or moved', sf.loc()))
     R = {}
     for p in fp:
         m = _fetch_mode(p, consts)
